@@ -31,7 +31,7 @@ TraceInit ==
   /\ TLCSet(1, 0)
   /\ TLCSet(2, ndJsonDeserialize(IOEnv.TRACE))
   /\ Init
-  /\ cfg = [key |-> [s \in Subs |-> 1], idle |-> "zero"]
+  /\ cfg = [key |-> [s \in Subs |-> 1], idle |-> "zero", bad |-> NoBad, ping |-> FALSE]
   /\ sid = [n \in Conn |-> None]
   /\ tid = "none"
   /\ rets = {}
@@ -39,7 +39,8 @@ TraceInit ==
 T_Reset ==
   /\ IsEvent("reset")
   /\ IF l = 1 THEN TRUE ELSE TraceLog[l - 1].ev = "end"
-  /\ cfg' = [key |-> [s \in Subs |-> IF s <= Len(Ev.key) THEN Ev.key[s] ELSE 1], idle |-> Ev.idle]
+  /\ cfg' = [key |-> [s \in Subs |-> IF s <= Len(Ev.key) THEN Ev.key[s] ELSE 1], idle |-> Ev.idle,
+              bad |-> [s \in Subs |-> IF s <= Len(Ev.bad) THEN Ev.bad[s] ELSE FALSE], ping |-> Ev.ping]
   /\ sub' = [s \in Subs |-> SubInit]
   /\ conn' = [c \in Conn |-> ConnInit]
   /\ subs' = [c \in Conn |-> [i \in Subs |-> None]]
@@ -82,12 +83,13 @@ T_Ret ==
 T_Handler ==
   /\ IsEvent("h") /\ Ev.s \in Subs
   /\ IF Ev.k = "connerr"
-     THEN \E c \in Conn : ShutNotify(c, Ev.s)
+     THEN \E c \in Conn : ShutNotify(c, Ev.s) /\ conn[c].code = Ev.n     \* with the close code the upstream sent
      ELSE \E c \in Conn :
             /\ DispatchTo(c)
             /\ subs[c][Head(down[c]).id] = Ev.s
             /\ Head(down[c]).k = Ev.k
             /\ Ev.k = "complete" \/ (Head(down[c]).n = Ev.n /\ Head(down[c]).id = Ev.id)
+            /\ Head(down[c]).v = Ev.v      \* the payload as a whole: its field set, all parts naming this frame
   /\ Keep
 
 \* the unsubscribe function returned (its effects - stop frame, removal, maybe shutdown - are visible earlier)
@@ -133,11 +135,12 @@ T_SrvUpgrade  == IsEvent("srv.upgrade") /\ Bound(Ev.c) /\ SrvUpgrade(sid[Ev.c]) 
 T_SrvReject   == IsEvent("srv.reject") /\ Bound(Ev.c) /\ SrvReject(sid[Ev.c]) /\ Keep
 T_SrvAck      == IsEvent("srv.ack") /\ Bound(Ev.c) /\ SrvAck(sid[Ev.c]) /\ Keep
 T_SrvInitFail == IsEvent("srv.initfail") /\ Bound(Ev.c) /\ SrvInitFail(sid[Ev.c]) /\ Keep
-T_SrvClose    == IsEvent("srv.close") /\ Bound(Ev.c) /\ SrvClose(sid[Ev.c]) /\ Keep
+T_SrvClose    == IsEvent("srv.close") /\ Bound(Ev.c) /\ SrvClose(sid[Ev.c], Ev.n) /\ Keep
+T_SrvMute     == IsEvent("srv.mute") /\ Bound(Ev.c) /\ SrvMute(sid[Ev.c]) /\ Keep
 T_SrvSend ==
   /\ IsEvent("srv.send") /\ Bound(Ev.c) /\ Ev.s \in Subs /\ Ev.k \in Kinds
   /\ Ev.n = Len(sent[Ev.s]) + 1
-  /\ SrvSend(sid[Ev.c], Ev.s, Ev.k)
+  /\ SrvSend(sid[Ev.c], Ev.s, Ev.k, Ev.v)
   /\ Keep
 
 \* ---- time, bookkeeping, end -------------------------------------------------
@@ -176,18 +179,18 @@ T_End ==
 Silent ==
   /\ \/ \E s \in Subs : \/ GetOrDial(s) \/ WakeDoneOk(s) \/ WakeDoneErr(s) \/ WakeDoneRetry(s) \/ WakeCtx(s)
                         \/ RegisterOk(s) \/ RegisterClosed(s) \/ RegisterRetry(s)
-                        \/ WriteOk(s) \/ WriteDead(s) \/ WriteCancelSafe(s) \/ WriteCancelKillOk(s) \/ WriteCancelKillErr(s)
+                        \/ WriteOk(s) \/ WriteEncodeFail(s) \/ WriteDead(s) \/ WriteCancelSafe(s) \/ WriteCancelKillOk(s) \/ WriteCancelKillErr(s)
                         \/ Unsubscribe(s)
      \/ \E c \in Conn : \/ DialUpgraded(c) \/ DialRejected(c) \/ DialAcked(c) \/ DialInitFailed(c) \/ DialCtx(c)
                         \/ PubDone(c) \/ PubMapOk(c) \/ PubMapErr(c)
-                        \/ DispatchDrop(c) \/ ReadClose(c) \/ ReadKilled(c) \/ ShutEnd(c) \/ IdleFire(c)
+                        \/ DispatchDrop(c) \/ ReadClose(c) \/ ReadKilled(c) \/ PingExpire(c) \/ ShutEnd(c) \/ IdleFire(c)
   /\ l <= Len(TraceLog)
   /\ UNCHANGED <<l, sid, tid, rets>>
 
 TraceNext ==
   \/ T_Reset \/ T_Call \/ T_Cancel \/ T_CancelDone \/ T_Ret \/ T_Handler \/ T_Unsub
   \/ T_SrvReq \/ T_SrvInit \/ T_SrvRecv \/ T_SrvGone
-  \/ T_SrvUpgrade \/ T_SrvReject \/ T_SrvAck \/ T_SrvInitFail \/ T_SrvClose \/ T_SrvSend
+  \/ T_SrvUpgrade \/ T_SrvReject \/ T_SrvAck \/ T_SrvInitFail \/ T_SrvClose \/ T_SrvMute \/ T_SrvSend
   \/ T_Quiet \/ T_IdleWait \/ T_Stats \/ T_SrvOpen \/ T_End
   \/ Silent
 
